@@ -241,7 +241,8 @@ HUnmarshal(t) ==
            u == Unmarshal(f, c, hs[t].m)
        IN /\ lock' = [lock EXCEPT ![f][c] = FALSE]
           /\ IF u[1]
-             THEN hs' = Fail(t) /\ cont' = cont
+             THEN /\ hs' = [hs EXCEPT ![t].pc = "rejected", ![t].popBefore = cont[f][OwnID(f, c)] # Empty]
+                  /\ cont' = cont
              ELSE /\ hs' = [hs EXCEPT ![t].pc = "accepted", ![t].acc = TRUE,
                                       ![t].popBefore = cont[f][OwnID(f, c)] # Empty]
                   /\ cont' = [cont EXCEPT ![f][OwnID(f, c)] = u[2]]
